@@ -149,6 +149,19 @@ static std::vector<uint64_t> special(int w)
     for (int k = 1; k < 64; ++k) { s.push_back((1ull << k) - 1); s.push_back((1ull << k) + 1); }
     s.push_back(~0ull);
     s.push_back(~0ull - 58); // 2^64 - 59 is prime
+    // the longest remainder chains: consecutive Fibonacci numbers (all quotients 1), Lucas and Pell numbers (quotients 1 / 2),
+    // in both argument orders like every pair of this set
+    for (int kind = 0; kind < 3; ++kind)
+    {
+        uint64_t p0 = kind == 1 ? 2 : 0, p1 = 1;
+        for (;;)
+        {
+            u128 nx = kind == 2 ? (u128)2 * p1 + p0 : (u128)p1 + p0;
+            if (nx >> 64) { break; }
+            p0 = p1; p1 = (uint64_t)nx;
+            s.push_back(p1);
+        }
+    }
     std::vector<uint64_t> out;
     for (uint64_t v : s) { if (w == 64 || v <= 0xFFFFFFFFull) { out.push_back(v); } }
     std::sort(out.begin(), out.end());
@@ -184,7 +197,7 @@ static void gcd_all(bool thorough)
         std::vector<uint64_t> S = special(w);
         for (size_t i = (size_t)R.shard.idx; i < S.size(); i += (size_t)R.shard.n) { for (uint64_t b : S) { gcd_check(S[i], b, w); } }
     }
-    R.part(std::string("gcd/lcm u32+u64: all pairs below ") + std::to_string(lim) + ", brute-force common divisors on pairs below 256, all pairs of the special set (0,1,m*2^e,2^k+-1,primes near 2^16/2^32/2^64,max)", gn, gnt);
+    R.part(std::string("gcd/lcm u32+u64: all pairs below ") + std::to_string(lim) + ", brute-force common divisors on pairs below 256, all pairs of the special set (0,1,m*2^e,2^k+-1,primes near 2^16/2^32/2^64,max, every Fibonacci, Lucas and Pell number)", gn, gnt);
     R.sample("{\"fn\":\"a_u64_gcd\",\"a\":" + grid::hex(3ull << 33) + ",\"b\":" + grid::hex(1ull << 34) + ",\"g\":" + grid::hex(a_u64_gcd(3ull << 33, 1ull << 34)) + "}");
 }
 
